@@ -1,6 +1,7 @@
 import Rsbdd.Driver.BddCases
 import Rsbdd.Driver.FormulaCases
 import Rsbdd.Driver.ParseCases
+import Rsbdd.Driver.CliCases
 import Std.Data.HashSet
 
 namespace Rsbdd
@@ -13,6 +14,8 @@ def dispatch (fields : List String) : Verdict :=
   | "C09" :: rest => handleC09 rest
   | "C08" :: rest => handleC08 rest
   | "C12" :: rest => handleC12 rest
+  | "C10" :: rest => handleC10 rest
+  | "C11" :: rest => handleC11 rest
   | "C02" :: rest => handleC02 rest
   | "C03" :: rest => handleC03 rest
   | "C04" :: rest => handleC04 rest
